@@ -86,6 +86,9 @@ def public_calls(M, basis, extra):
         "evaluate_basis": (lambda: m["gbasis.evals.eval"].evaluate_basis(basis, pts), lambda: m["gbasis.evals.eval"].evaluate_basis(basis, pts[0])),
         "evaluate_deriv_basis": (lambda: m["gbasis.evals.eval_deriv"].evaluate_deriv_basis(basis, pts, np.array([1, 0, 2])), lambda: m["gbasis.evals.eval_deriv"].evaluate_deriv_basis(basis, pts, np.array([1, -1, 0]))),
         "evaluate_deriv_basis/direct": (lambda: m["gbasis.evals.eval_deriv"].evaluate_deriv_basis(basis, pts, np.array([1, 0, 2]), deriv_type="direct"), lambda: m["gbasis.evals.eval_deriv"].evaluate_deriv_basis(basis, pts, np.array([3, 0, 0]), deriv_type="direct")),
+        "evaluate_density": (lambda: m["gbasis.evals.density"].evaluate_density(dm, basis, pts, threshold=extra["thr"]), lambda: m["gbasis.evals.density"].evaluate_density(dm[:, :1], basis, pts)),
+        "evaluate_posdef_kinetic_energy_density": (lambda: m["gbasis.evals.density"].evaluate_posdef_kinetic_energy_density(dm, basis, pts, threshold=extra["thr"]), lambda: m["gbasis.evals.density"].evaluate_posdef_kinetic_energy_density(dm, basis, pts[0])),
+        "evaluate_density_using_evaluated_orbs": (lambda: m["gbasis.evals.density"].evaluate_density_using_evaluated_orbs(dm, extra["orbs"]), lambda: m["gbasis.evals.density"].evaluate_density_using_evaluated_orbs(dm, extra["orbs"][:2])),
         "evaluate_deriv_density": (lambda: m["gbasis.evals.density"].evaluate_deriv_density(np.array([1, 0, 1]), dm, basis, pts), lambda: m["gbasis.evals.density"].evaluate_deriv_density(np.array([1, 0, 1]), dm[:, :2], basis, pts)),
         "evaluate_density_gradient": (lambda: m["gbasis.evals.density"].evaluate_density_gradient(dm, basis, pts), lambda: m["gbasis.evals.density"].evaluate_density_gradient(dm[0], basis, pts)),
         "evaluate_density_laplacian": (lambda: m["gbasis.evals.density"].evaluate_density_laplacian(dm, basis, pts), lambda: m["gbasis.evals.density"].evaluate_density_laplacian(dm, basis, None)),
@@ -105,6 +108,7 @@ class Purity:
         names = ["overlap_integral", "overlap_integral/transform", "overlap_integral_asymmetric", "kinetic_energy_integral", "momentum_integral",
                  "angular_momentum_integral", "moment_integral", "point_charge_integral", "nuclear_electron_attraction_integral",
                  "electron_repulsion_integral", "evaluate_basis", "evaluate_deriv_basis", "evaluate_deriv_basis/direct", "evaluate_deriv_density",
+                 "evaluate_density_using_evaluated_orbs",
                  "evaluate_density_gradient", "evaluate_density_laplacian", "evaluate_density_hessian", "evaluate_stress_tensor",
                  "evaluate_ehrenfest_force", "electrostatic_potential"]
         return [dict(fn=n) for n in names] + [dict(fn="*raising-only*")]
@@ -120,7 +124,7 @@ class Purity:
         basis, params = build_basis(M)
         nfun = 1 + 3
         extra = dict(pts=M.vec("R", (1, 3)), q=M.vec("q", 1), C=M.vec("C", 3), orders=np.array([[1, 0, 1]]), dm=sym_dm(M, nfun), U=M.vec("U", (2, nfun)),
-                     nuc=M.vec("Rn", (1, 3)), Z=M.vec("Z", 1))
+                     nuc=M.vec("Rn", (1, 3)), Z=M.vec("Z", 1), thr=M.scalar(M.pos("thr")), orbs=M.vec("orb", (nfun, 1)))
         calls = public_calls(M, basis, extra)
         tracked = dict(extra)
         tracked["basis"] = basis
@@ -142,7 +146,10 @@ class Purity:
                 return
             ra, fa = np.asarray(r, dtype=object), np.asarray(ref, dtype=object)
             for idx in np.ndindex(*fa.shape):
-                M.eq(name + "/equal" + tag(idx), ra[idx], fa[idx])
+                if isinstance(ra[idx], str) or isinstance(fa[idx], str):
+                    M.true(name + "/equal" + tag(idx), ra[idx] == fa[idx], "same outcome (raised) on repetition")
+                else:
+                    M.eq(name + "/equal" + tag(idx), ra[idx], fa[idx])
 
         def no_alias(name, r, others):
             if not isinstance(r, np.ndarray):
@@ -157,7 +164,19 @@ class Purity:
                 M.raises("purity/%s/invalid-call-raises" % name, invalid, (TypeError, ValueError, AttributeError, IndexError, AssertionError))
                 frame("purity/%s/after-raise" % name, before)
             return
-        f, invalid = calls[fn]
+        f0, invalid = calls[fn]
+        may_raise = fn in ("evaluate_density", "evaluate_posdef_kinetic_energy_density")
+
+        def f():
+            # the two threshold functions legitimately raise ValueError for a negative value beyond the threshold;
+            # on such a path the frame conditions are what is checked and the outcome must repeat
+            if not may_raise:
+                return f0()
+            try:
+                return f0()
+            except ValueError:
+                return np.array(["raised ValueError"], dtype=object)
+
         base = "purity/" + fn
         s0 = snapshot()
         r1 = f()
@@ -172,7 +191,8 @@ class Purity:
         same(base + "/repeat", r2, r1)
         no_alias(base + "/call2", r2, dict(argarrays, r1=r1))
         # other calls on the same objects, then an invalid call
-        for other in ("overlap_integral", "evaluate_basis", "moment_integral", "electrostatic_potential", "kinetic_energy_integral"):
+        for other in ("overlap_integral", "evaluate_basis", "moment_integral", "electrostatic_potential", "kinetic_energy_integral",
+                      "evaluate_density_using_evaluated_orbs"):
             if other != fn:
                 calls[other][0]()
         frame(base + "/after-other-calls", s0)
@@ -188,5 +208,7 @@ class Purity:
         r4 = f()
         fresh_basis, _ = build_basis(M, params=dict(params, ea=new_e, da=new_d))
         fresh_calls = public_calls(M, fresh_basis, extra)
+        if may_raise:
+            return
         ref = fresh_calls[fn][0]()
         same(base + "/after-parameter-update", r4, ref)
